@@ -1182,6 +1182,27 @@ class Exec:
                 continue
             if isinstance(base, VSeq) and isinstance(idx, VOpt):
                 idx = self.co(idx, "int", s, "index")
+            if isinstance(base, VSeq) and base.kind.startswith("list3[") and isinstance(idx, (VInt, VBool)):
+                # flat list read as triples: the component is the index modulo 3 (must be static)
+                from .kinds import triple_sort
+
+                dt, ks = triple_sort(base.kind)
+                i = coerce(idx, "int").t
+                n3 = 3 * z3.Length(base.t)
+                isim = z3.simplify(i)
+                if z3.is_int_value(isim) and isim.as_long() < 0:
+                    s = self.implicit_exc(s, "IndexError", i < -n3, "index")
+                    i = n3 + i
+                else:
+                    s = self.implicit_exc(s, "IndexError", z3.Or(i >= n3, i < 0), "index")
+                comp = z3.simplify(i % 3)
+                if not z3.is_int_value(comp):
+                    raise Unsupported("index into a list of triples whose component (index mod 3) is not static")
+                c = comp.as_long()
+                q = z3.simplify((i - c) / 3)
+                ev_ = wrap_elem(ks[c], dt.accessor(0, c)(base.t[q]))
+                out.append((ev_, self.with_inv(ev_, s)))
+                continue
             if isinstance(base, VSeq) and isinstance(idx, (VInt, VBool)):
                 i = coerce(idx, "int").t
                 n = z3.Length(base.t)
@@ -1447,6 +1468,24 @@ class Exec:
     def seq_method(self, f, recv: VSeq, args, st):
         out = []
         name = f.attr
+        if name == "extend" and recv.kind.startswith("list3[") and len(args) == 1 and isinstance(args[0], ast.List) and len(args[0].elts) == 3:
+            from .kinds import triple_sort
+
+            dt, ks = triple_sort(recv.kind)
+            for vals, s in self.ev_list(list(args[0].elts), st):
+                self.cur = s
+                comps = [self.co(v, k, s, "triple-component") for v, k in zip(vals, ks)]
+                add = z3.Unit(dt.constructor(0)(*[c_.t for c_ in comps]))
+                newv = VSeq(recv.kind, z3.Concat(recv.t, add), recv.fresh)
+                n0 = z3.Length(recv.t)
+                j = z3.Int(f"j!app{next_id()}")
+                facts = [z3.Length(newv.t) == n0 + 1, z3.SubSeq(newv.t, 0, n0) == recv.t, newv.t[n0] == add.arg(0)]
+                if not self.ctx.expand_quant:
+                    facts.append(z3.ForAll([j], z3.Implies(z3.And(0 <= j, j < n0), newv.t[j] == recv.t[j])))
+                s = s.assume(*facts)
+                for s2 in self.write_back(f.value, newv, s, recv):
+                    out.append((VNone(), s2))
+            return out
         if name in ("append", "extend"):
             for vals, s in self.ev_list(list(args), st):
                 self.cur = s
@@ -1911,6 +1950,8 @@ def _bi_len(ex, vals, st):
     if isinstance(v, VSeq):
         if v.t is None:
             return VInt(0)
+        if v.kind.startswith("list3["):
+            return VInt(3 * z3.Length(v.t))
         return VInt(z3.Length(v.t))
     if isinstance(v, VStrConst):
         return VInt(len(v.s))
